@@ -193,6 +193,23 @@ def run(args):
             twin = outs.get(f[0] + "100" + f[4])
             if twin is not None and leafseq(j) != leafseq(twin):
                 V.violation("values-differ:bin-dov-anno", case, observed=leafseq(j)[:8], expected=leafseq(twin)[:8], what="value sequence changes with binary / DoV / annotation option")
+            # annotation members do not depend on the DoV option, DoV members not on the annotation option
+            if f[2] == "1":
+                od = outs.get(f[:3] + ("0" if f[3] == "1" else "1") + f[4])
+                if od is not None:
+                    a1 = [(n.get("name"), n.get("anno")) for n in walk(j) if "anno" in n]
+                    a2 = [(n.get("name"), n.get("anno")) for n in walk(od) if "anno" in n]
+                    if a1 != a2:
+                        V.violation("member:anno-depends-on-dov", case, observed=[x for x in a1 if x not in a2][:4] + [x for x in a2 if x not in a1][:4],
+                                    what="the annotation members shown differ with the Degree-of-Variability option")
+            if f[3] == "1":
+                oa = outs.get(f[:2] + ("0" if f[2] == "1" else "1") + f[3:])
+                if oa is not None:
+                    d1 = [(n.get("name"), n.get("dov")) for n in walk(j) if "dov" in n]
+                    d2 = [(n.get("name"), n.get("dov")) for n in walk(oa) if "dov" in n]
+                    if d1 != d2:
+                        V.violation("member:dov-depends-on-anno", case, observed=[x for x in d1 if x not in d2][:4] + [x for x in d2 if x not in d1][:4],
+                                    what="the Degree-of-Variability members shown differ with the annotation option")
             other = outs.get(f[:4] + ("0" if f[4] == "1" else "1"))
             if other is not None and sorted(map(str, leafseq(j))) != sorted(map(str, leafseq(other))):
                 V.violation("actop:changes-values", case, what="moving activation conditions first changes more than the order")
